@@ -107,7 +107,7 @@ def cases(rng, tier):
 
 def nontrivial(c, impl, verd): return " Anonempty" in verd and " Bnonempty" in verd
 def observe(dist, c, impl, verd):
-    for k in ("included", "notincluded", "Aempty", "Bempty", "timeout", "shared_table", "discriminates_shared_cache", "down_model_out_of_fuel", "down_model_run"):
+    for k in ("included", "notincluded", "Aempty", "Bempty", "timeout", "shared_table", "discriminates_shared_cache", "discriminates_careless_promotion", "down_model_out_of_fuel", "down_model_run"):
         if (" " + k) in verd: dist[k] = dist.get(k, 0) + 1
 def shrink_candidates(c): return gen.shrink_automata(c)
 def explain(c, impl, verd):
@@ -117,11 +117,11 @@ def explain(c, impl, verd):
 
 LEVEL_TEXT = ("Coq theorems (all pairs of automata, no bounds): the verdict function every selection must compute (trim both operands, decide) is true "
               "exactly when L(A) is included in L(B), hence all selections agree; the boolean gate applied to each reported verdict decides the "
-              "property; preparation that keeps the operands' languages keeps the verdict; (A) the recursive downward algorithm with choice functions and a coinductive workset is partially correct for every fuel (an answer is the truth); (A) the upward saturation with antichain pruning (new macro pairs subsumed by stored ones are skipped) gives the verdict of the full subset construction; the leaf branch of the non-recursive downward checker as "
+              "property; preparation that keeps the operands' languages keeps the verdict; (A) the recursive downward algorithm with choice functions and a coinductive workset is partially correct for every fuel (an answer is the truth), also with a simulation preorder, with the cache of positive answers scoped to one expansion (one cache shared by all levels is refuted by a closed witness) and with the implication cache of the opt selections (antecedents and consequents, promotion to the global cache only with an empty antecedent; careless promotion refuted); comparing final states is a sufficient, not a necessary test for operands sharing a table; (A) the upward saturation with antichain pruning (new macro pairs subsumed by stored ones are skipped) gives the verdict of the full subset construction; the leaf branch of the non-recursive downward checker as "
               "fixed is exact and as it was (defect D1) is refuted by a vm_compute witness. Tie to the C++: libvata rebuilt from /repo runs all 8 "
               "selections through the documented protocol on generated pairs (complete small slice + targeted + random) and every verdict is "
               "compared with the extracted verified decider.")
-LEVEL_NOTE = ("Apart from the recursive downward algorithm (identity preorder, no caches; termination not proved: fuel), the antichain-pruned upward saturation (identity preorder, contains-test only) and the leaf branch, the inclusion algorithms (implication caches, simulation pruning, refine, the non-recursive stack emulation) are modelled at function level only: the theorem "
+LEVEL_NOTE = ("Apart from the recursive downward algorithm (with / without preorder, with the positive cache, with the implication cache; termination not proved: fuel; subsumption by set inclusion only), the antichain-pruned upward saturation (identity preorder, contains-test only) and the leaf branch, the inclusion algorithms (the negative cache, refine, the lte cache keyed by addresses, the non-recursive stack emulation) are modelled at function level only: the theorem "
               "fixes the function, the tie is verdict equality on generated pairs. Trusted: Coq kernel, ExtrOcamlBasic extraction, OCaml/C++ glue, "
               "generators. No axioms (closed under the global context).")
 TECHNIQUE = "Coq proof (verified inclusion decider + verdict gate); extracted-model correspondence on all 8 selections"
